@@ -16,30 +16,10 @@ Print Assumptions C01_layout_names_as_documented.
 
 From MafVerif Require Import lib.PyInt gen.GenClasses proofs.ColumnFacts proofs.ShapeFacts.
 
-(* For every pinned layout, every column position whose documented domain is
-   one of the proved kinds (text, nullable text, integer with optional lower
-   bound and optional null, Entrez id, DNA, nullable DNA, transcript strand and
-   must-be-null over any of these), and EVERY field text without TAB/CR/LF:
-   the class the regenerated definitions put there (resolved by C3 over the
-   regenerated class table) accepts the text with exactly the denoted value
-   when it lies in the documented domain, and rejects it when it lies outside.
-   Unbounded in the text; finite only in the set of layouts (14, pinned).
-   The remaining kinds (float, UUID, enumerations, lists, text-or-integer,
-   Canonical, Boolean) are covered by the correspondence and the oracle only:
-   this is C01_field_domain_partial. *)
-Theorem C01_field_domain_partial :
-  forall (Or : oracles) ver annot cols i name d e,
-    In (ver, annot, cols) spec_layouts -> nth_error cols i = Some (name, d) -> shape d = Some e ->
-    exists l cname cls r,
-      find_layout layouts_ok annot = Some l /\ nth_error (l_cols l) i = Some (cname, cls) /\
-      cname = s2l name /\ resolve class_table cls = Some r /\
-      forall t, contains_sep t = false ->
-        (forall v, zone d t = ZAccept v -> field_outcome Or r t = Valid v) /\
-        (zone d t = ZReject -> field_outcome Or r t = Invalid).
-Proof. exact field_domain_as_documented. Qed.
-Print Assumptions C01_field_domain_partial.
+(* The field-level theorem over every pinned position is C01_field_domain_all below. *)
 
-(* the same statement for any class of the proved shapes, whatever layout it sits in *)
+(* per-class statement for the first family of domain kinds (text, integer, Entrez, DNA,
+   strand, must-be-null over these); the remaining kinds are in C01_class_meets_domain_all *)
 Theorem C01_class_meets_domain :
   forall (Or : oracles) d ec t, shape d = Some ec -> contains_sep t = false ->
     (forall v, zone d t = ZAccept v -> fo Or ec t = Valid v) /\
